@@ -197,6 +197,11 @@ Lemma code_grant_nt w n now r : no_touch (code_grant w n now r).
 Proof. unfold code_grant. do 2 (break_goal; [exact I|]). auth_nt. nt. Qed.
 Lemma cc_grant_nt w n now r : no_touch (cc_grant w n now r).
 Proof. unfold cc_grant. break_goal; [exact I|]. auth_nt. nt. Qed.
+Lemma jwt_bearer_grant_nt w n now r : no_touch (jwt_bearer_grant w n now r).
+Proof.
+  unfold jwt_bearer_grant, jwt_bearer_client. break_goal; [exact I|].
+  apply no_touch_bind; [apply no_touch_bind; [apply authenticated_nt|]; intros [c|]; nt|]. intros [c|]; [|exact I]. nt.
+Qed.
 Lemma ciba_grant_nt w n now r : no_touch (ciba_grant w n now r).
 Proof. unfold ciba_grant. break_goal; [exact I|]. auth_nt. nt. Qed.
 Lemma push_auth_nt w n now r : no_touch (push_auth w n now r).
@@ -406,6 +411,7 @@ Proof.
     + apply no_touch_wt, cc_grant_nt.
     + apply no_touch_wt, code_grant_nt.
     + apply refresh_grant_wt.
+    + apply no_touch_wt, jwt_bearer_grant_nt.
     + apply no_touch_wt, ciba_grant_nt.
   - apply no_touch_wt, introspect_nt.
   - apply no_touch_wt, revoke_nt.
